@@ -309,6 +309,15 @@ def cells(quick):
                                         continue
                                     evs = [dict(kind=kind, tau=tau, s=1.0, dir=dr)]
                                     out.append(dict(problem=pname, span=list(span), dt0=dt0, method=m, dense=dense, dtype="float64", events=evs, tol=1e-8, handover=tau + off))
+    # ... and at the SECOND root of one function (it has fired before in the same run when the hand-over comes)
+    for pname, spans, dt0 in (("lin", LIN_SPANS, 0.5), ("osc", OSC_SPANS, 0.25)):
+        for span, taus in list(spans.items())[:2]:
+            ta, tb = (taus[0], taus[2]) if span[1] > span[0] else (taus[2], taus[0])       # ta is met first, tb second
+            for off in (0.0, 1e-10, -1e-10):
+                for m in METHODS:
+                    for dense in (True, False):
+                        evs = [dict(kind="double", tau=ta, tau2=tb, s=1.0, dir=0)]
+                        out.append(dict(problem=pname, span=list(span), dt0=dt0, method=m, dense=dense, dtype="float64", events=evs, tol=1e-8, handover=tb + off))
     # round trips on one system: a first leg without events in the opposite direction, then the leg that is judged
     for span, taus in OSC_SPANS_NEAR.items():
         sets = [[dict(kind=k, tau=tau)] for tau in taus for k in ("time", "state", "dstate")] + [[dict(kind="time", tau=taus[0]), dict(kind="state", tau=taus[1])], [dict(kind="state", tau=taus[2]), dict(kind="dstate", tau=taus[0])]]
